@@ -161,7 +161,184 @@ func (o *vOut) row(r vRow) {
 	o.mu.Lock()
 	o.w.Write(b)
 	o.w.WriteByte('\n')
+	// rows are rare (findings, summary): on disk at once, so that a process death in a later
+	// case does not take them along
+	o.w.Flush()
 	o.mu.Unlock()
+}
+
+// vMarks is the "what is running right now" board of a parallel stage: one fixed-width slot
+// per worker in VERIF_OUT.cur, overwritten before every case. When the process dies (runaway
+// allocation under the address-space limit, fatal runtime error) the driver finds the cases
+// that were in flight there and re-runs each alone.
+type vMarks struct{ f *os.File }
+
+const vMarkWidth = 128
+
+func vOpenMarks() *vMarks {
+	f, err := os.Create(os.Getenv("VERIF_OUT") + ".cur")
+	if err != nil {
+		return &vMarks{}
+	}
+	return &vMarks{f: f}
+}
+
+func (m *vMarks) set(worker int, what string) {
+	if m.f == nil {
+		return
+	}
+	var buf [vMarkWidth]byte
+	for i := range buf {
+		buf[i] = ' '
+	}
+	copy(buf[:vMarkWidth-1], what)
+	buf[vMarkWidth-1] = '\n'
+	m.f.WriteAt(buf[:], int64(worker)*vMarkWidth)
+}
+
+// vStageLimits: a soft heap limit plus a hard address-space limit, so that a decoder that
+// runs away on a well-formed message kills this test process at once instead of the machine.
+func vStageLimits() {
+	debug.SetMemoryLimit(2 << 30)
+	_ = vSetAddressLimit(uint64(vEnvInt("VERIF_AS_GIB", 8)) << 30)
+}
+
+// ---------------------------------------------------------------- fragmented readers
+
+// vChunkModes are the ways a message is handed to DecodeStream: an io.Reader may return
+// fewer bytes than asked for (a fragmented WebSocket message does), and the decoded frame
+// must not depend on where the fragments end.
+var vChunkModes = []string{"one", "c7", "c4096", "fields", "midfield", "hdr3", "hdr5+1"}
+
+type vCutReader struct {
+	b    []byte
+	cuts []int // ascending offsets at which a Read call ends
+	p    int
+	ci   int // first cut not yet passed
+}
+
+func (r *vCutReader) Read(dst []byte) (int, error) {
+	if r.p >= len(r.b) {
+		return 0, io.EOF
+	}
+	for r.ci < len(r.cuts) && r.cuts[r.ci] <= r.p {
+		r.ci++
+	}
+	end := len(r.b)
+	if r.ci < len(r.cuts) && r.cuts[r.ci] < end {
+		end = r.cuts[r.ci]
+	}
+	n := copy(dst, r.b[r.p:end])
+	r.p += n
+	return n, nil
+}
+
+// vFieldBounds returns the offsets at which the fields of a well-formed message end, derived
+// from its flag byte and the data lengths of its series (specification layout).
+func vFieldBounds(enc []byte, dataLens []int) []int {
+	if len(enc) < 5 {
+		return nil
+	}
+	fl := enc[0]
+	allP, trZ, eqTR, eqL, eqA, alZ := fl&1 != 0, fl&2 != 0, fl&4 != 0, fl&8 != 0, fl&16 != 0, fl&32 != 0
+	b := []int{1, 5}
+	p := 5
+	add := func(n int) {
+		if n > 0 {
+			p += n
+			b = append(b, p)
+		}
+	}
+	if eqL {
+		add(4)
+	}
+	if eqTR && !trZ {
+		add(16)
+	}
+	if eqA && !alZ {
+		add(8)
+	}
+	for _, dl := range dataLens {
+		if !allP {
+			add(4)
+		}
+		if !eqL {
+			add(4)
+		}
+		add(dl)
+		if !eqTR {
+			add(16)
+		}
+		if !eqA {
+			add(8)
+		}
+	}
+	return b
+}
+
+// vChunked wraps bytes in a reader of the given mode. bounds = field boundaries (may be nil).
+func vChunked(mode string, b []byte, bounds []int) io.Reader {
+	every := func(k int) []int {
+		var c []int
+		for x := k; x < len(b); x += k {
+			c = append(c, x)
+		}
+		return c
+	}
+	switch mode {
+	case "one":
+		return iotest.OneByteReader(bytes.NewReader(b))
+	case "c7":
+		return &vCutReader{b: b, cuts: every(7)}
+	case "c4096":
+		return &vCutReader{b: b, cuts: every(4096)}
+	case "fields": // fragments end exactly at field boundaries
+		return &vCutReader{b: b, cuts: bounds}
+	case "midfield": // every field (header fields, series data, trailers) is split in two
+		var c []int
+		prev := 0
+		for _, x := range bounds {
+			if x-prev >= 2 {
+				c = append(c, prev+(x-prev)/2)
+			}
+			prev = x
+		}
+		return &vCutReader{b: b, cuts: c}
+	case "hdr3": // inside the sequence number
+		return &vCutReader{b: b, cuts: []int{3}}
+	default: // "hdr5+1": right after the fixed header and one byte into what follows
+		return &vCutReader{b: b, cuts: []int{5, 6}}
+	}
+}
+
+func vModeFor(salt int, id string) string {
+	h := salt
+	for _, ch := range id {
+		h = (h*31 + int(ch)) & 0xFFFFFF
+	}
+	return vChunkModes[h%len(vChunkModes)]
+}
+
+func vFramesDiffer(a, b frame.Frame) string {
+	ak, as, bk, bs := a.KeysSlice(), a.SeriesSlice(), b.KeysSlice(), b.SeriesSlice()
+	if len(ak) != len(bk) {
+		return fmt.Sprintf("%d series vs %d", len(bk), len(ak))
+	}
+	for i := range ak {
+		x, y := as[i], bs[i]
+		if ak[i] != bk[i] || x.DataType != y.DataType || x.Alignment != y.Alignment || x.TimeRange != y.TimeRange || !bytes.Equal(x.Data, y.Data) {
+			return fmt.Sprintf("series %d: key %d al %d tr [%d,%d) data %x vs key %d al %d tr [%d,%d) data %x", i,
+				bk[i], y.Alignment, y.TimeRange.Start, y.TimeRange.End, vHead(y.Data), ak[i], x.Alignment, x.TimeRange.Start, x.TimeRange.End, vHead(x.Data))
+		}
+	}
+	return ""
+}
+
+func vHead(b []byte) []byte {
+	if len(b) > 24 {
+		return b[:24]
+	}
+	return b
 }
 
 func (o *vOut) flush() { o.mu.Lock(); o.w.Flush(); o.mu.Unlock() }
@@ -358,12 +535,13 @@ type vLStats struct {
 	cases, merged2, merged3, wide int
 	many, ties, instant           int // cases with >= 13 series / with equal (key, alignment) left apart / with a [t,t) range
 	flags                         [64]int
+	chunk                         map[string]int // streaming decodes per reader mode
 }
 
 // vLayoutCase runs one (frame, configuration, concretisation). kind: "" ok, "violation"
 // (round trip differs beyond key order / merging, error, panic), "drift" (flag byte, size or
 // merge choice differs from the specification while the round trip still holds).
-func vLayoutCase(fr vLFrame, cfgName string, conc *vConc, pair vCodecPair, st *vLStats) (kind, what string) {
+func vLayoutCase(fr vLFrame, cfgName string, conc *vConc, pair vCodecPair, st *vLStats, mode string) (kind, what string) {
 	defer func() {
 		if r := recover(); r != nil {
 			kind, what = "violation", fmt.Sprintf("panic: %v", r)
@@ -407,14 +585,23 @@ func vLayoutCase(fr vLFrame, cfgName string, conc *vConc, pair vCodecPair, st *v
 	if err != nil {
 		return "violation", "Encode of a valid frame failed: " + err.Error()
 	}
-	var dec frame.Frame
-	if conc.stream {
-		dec, err = pair.dec.DecodeStream(iotest.OneByteReader(bytes.NewReader(enc)))
-	} else {
-		dec, err = pair.dec.Decode(enc)
-	}
+	dec, err := pair.dec.Decode(enc)
 	if err != nil {
-		return "violation", fmt.Sprintf("Decode(Encode(frame)) failed: %v (wire %x)", err, enc)
+		return "violation", fmt.Sprintf("Decode(Encode(frame)) failed: %v (wire %x)", err, vHead(enc))
+	}
+	// the same bytes through DecodeStream and a reader that returns short reads (mode):
+	// the frame must not depend on how the message is fragmented
+	var dls []int
+	for _, s := range dec.SeriesSlice() {
+		dls = append(dls, len(s.Data))
+	}
+	sdec, serr := pair.dec.DecodeStream(vChunked(mode, enc, vFieldBounds(enc, dls)))
+	st.chunk[mode]++
+	if serr != nil {
+		return "violation", fmt.Sprintf("streaming decode (reader %s) of a well-formed message failed: %v; Decode of the same bytes succeeds (wire %x)", mode, serr, vHead(enc))
+	}
+	if d := vFramesDiffer(dec, sdec); d != "" {
+		return "violation", fmt.Sprintf("streaming decode (reader %s) differs from Decode of the same bytes: %s (wire %x)", mode, d, vHead(enc))
 	}
 	dk := dec.KeysSlice()
 	ds := dec.SeriesSlice()
@@ -515,7 +702,12 @@ func TestVerifCodecLayout(t *testing.T) {
 	}
 	var wg sync.WaitGroup
 	stats := make([]vLStats, workers)
+	for w := range stats {
+		stats[w].chunk = map[string]int{}
+	}
 	bad := make([]int, workers)
+	marks := vOpenMarks()
+	vStageLimits()
 	for w := 0; w < workers; w++ {
 		wg.Add(1)
 		go func(w int) {
@@ -564,7 +756,9 @@ func TestVerifCodecLayout(t *testing.T) {
 								pair = vNewPair(vLCfgs[cfgName], conc)
 								pairs[pk] = pair
 							}
-							kind, what := vLayoutCase(fr, cfgName, conc, pair, &stats[w])
+							mode := vModeFor(i, id)
+							marks.set(w, fmt.Sprintf("%d %s %s", i, id, mode))
+							kind, what := vLayoutCase(fr, cfgName, conc, pair, &stats[w], mode)
 							if kind != "" {
 								// a failed case may leave the reused codecs in an odd state
 								delete(pairs, pk)
@@ -580,9 +774,12 @@ func TestVerifCodecLayout(t *testing.T) {
 		}(w)
 	}
 	wg.Wait()
-	tot := vLStats{}
+	tot := vLStats{chunk: map[string]int{}}
 	nbad := 0
 	for w := range stats {
+		for m, n := range stats[w].chunk {
+			tot.chunk[m] += n
+		}
 		tot.cases += stats[w].cases
 		tot.merged2 += stats[w].merged2
 		tot.merged3 += stats[w].merged3
@@ -602,7 +799,7 @@ func TestVerifCodecLayout(t *testing.T) {
 		}
 	}
 	out.row(vRow{"summary": true, "lines": len(lines), "cases": tot.cases, "bad": nbad, "flag_bytes_seen": nf,
-		"merged2": tot.merged2, "merged3": tot.merged3, "wide_payload_cases": tot.wide,
+		"merged2": tot.merged2, "merged3": tot.merged3, "wide_payload_cases": tot.wide, "stream_reader_modes": tot.chunk,
 		"many_series_cases": tot.many, "tie_cases": tot.ties, "instant_range_cases": tot.instant})
 }
 
@@ -746,8 +943,8 @@ func vSyncReplay(hist []vSStep, conc *vConc, static bool, copies int) (step int,
 			wire = wire[1:]
 			var fr frame.Frame
 			var err error
-			if conc.stream {
-				fr, err = c.DecodeStream(iotest.OneByteReader(bytes.NewReader(f.wire)))
+			if conc.stream || copies > 1 {
+				fr, err = c.DecodeStream(vChunked(vChunkModes[(i+nframe+len(hist))%3], f.wire, nil)) // one, c7, c4096
 			} else {
 				fr, err = c.Decode(f.wire)
 			}
@@ -790,6 +987,8 @@ func TestVerifCodecSync(t *testing.T) {
 	var wg sync.WaitGroup
 	type cnt struct{ replayed, bad, decFrame, decErr, decAhead, many int }
 	cs := make([]cnt, workers)
+	marks := vOpenMarks()
+	vStageLimits()
 	for w := 0; w < workers; w++ {
 		wg.Add(1)
 		go func(w int) {
@@ -809,6 +1008,7 @@ func TestVerifCodecSync(t *testing.T) {
 					copies = 7 // 14..21 series per frame
 					cs[w].many++
 				}
+				marks.set(w, fmt.Sprintf("%d", i))
 				step, kind, what := vSyncReplay(hist, conc, i%3 == 0, copies)
 				cs[w].replayed++
 				for _, st := range hist {
@@ -1151,7 +1351,7 @@ func vRunDecode(c *Codec, b []byte, stream, exact bool) (res vDRes) {
 		var fr frame.Frame
 		var err error
 		if stream {
-			fr, err = c.DecodeStream(iotest.OneByteReader(bytes.NewReader(b)))
+			fr, err = c.DecodeStream(vChunked(vChunkModes[len(b)%3], b, nil)) // one, c7, c4096
 		} else {
 			fr, err = c.Decode(b)
 		}
